@@ -445,6 +445,10 @@ func tailOf(s string) string {
 }
 
 func (e *env) cliReplay(c Case) {
+	if c.CliNames != nil {
+		e.cliNamesOne(e.cliSetup(), *c.CliNames)
+		return
+	}
 	if c.Cli == nil {
 		panic("cli case without parameters")
 	}
